@@ -37,10 +37,18 @@ Section K.
 Variable data_header : nat -> list byte -> list byte.
 Variable cache_header : list byte -> N -> list byte.
 
+(* a cache file whose header is intact and whose region holds no complete line (torn right after the header, inside
+   its first full timestamp or inside its first bucket line): the library's tail repair empties it and the repair pass
+   then resamples the whole source from the start - which is right when no bucket is left open *)
+Definition cache_recovers_empty (p:nat) (name:list byte) (B:N) (c:list byte) : bool :=
+  let h := enc_outer (cache_header name B) in
+  bytes_eqb (firstn (length h) c) h
+  && match recover p (drop (len h) c) with Some ([], _) => true | _ => false end.
+
 (* class of an `open name ... caches`: 0 = none of the classes below
    1 = marker_tail (D6) on the data file;
-   2 = cache_realign (D10/D11): some requested cache exists and is not (the exact cache of the
-       surviving lines, with a line count that is a multiple of its bucket size) *)
+   2 = cache_realign (D10/D11): some requested cache exists and is neither the exact cache of the surviving lines nor
+       a cache that recovers to empty, or the line count is not a multiple of its bucket size *)
 Definition open_class (s:sstate) (name:list byte) (caches:list N) : N :=
   let s0 := close_handle data_header cache_header s in
   let fs := ss_fs s0 in
@@ -63,7 +71,8 @@ Definition open_class (s:sstate) (name:list byte) (caches:list N) : N :=
               if existsb (fun B =>
                    match sfs_get fs (s_cache_name name B ++ s_ext_data) with
                    | None => false
-                   | Some c => negb (bytes_eqb c (enc_outer (cache_header name B) ++ cache_region p B l)
+                   | Some c => negb ((bytes_eqb c (enc_outer (cache_header name B) ++ cache_region p B l)
+                                      || cache_recovers_empty p name B c)
                                      && (length l mod N.to_nat B =? 0))
                    end) caches
               then 2%N else 0%N
